@@ -101,8 +101,46 @@ impl Monitor for C14 {
                 }
             }
         }
+        // two-hop: either pool's trade-enable time
+        if ev.tx.ixs.len() == 1 {
+            if let Some(c) = wpix::decode(&ev.tx.ixs[0]) {
+                if matches!(c.name(), "two_hop_swap" | "two_hop_swap_v2") {
+                    let gates: Vec<u64> = ["oracle_one", "oracle_two"].iter().map(|n| ev.pre.data(&c.a(n)).and_then(decode::oracle).map(|o| o.trade_enable_timestamp).unwrap_or(0)).collect();
+                    if gates.iter().any(|t| *t > 0) {
+                        cov.eval(format!("{}|trade_enable|before={}|ok={}", c.name(), gates.iter().any(|t| now < *t), ev.out.ok));
+                    }
+                    if ev.out.ok {
+                        for (leg, t) in gates.iter().enumerate() {
+                            if now < *t {
+                                out.push(viol("traded_before_enable_time", ev.idx, format!("{} succeeded at {} but trading in its pool {} is enabled from {}", c.name(), now, if leg == 0 { "one" } else { "two" }, t)));
+                            }
+                        }
+                    } else if ev.out.custom() == Some(6064) {
+                        cov.probe("trade_refused_before_enable_time");
+                        if gates.iter().all(|t| now >= *t) {
+                            out.push(viol("refused_after_enable_time", ev.idx, format!("{} refused as not enabled at {} but both pools are enabled ({:?})", c.name(), now, gates)));
+                        }
+                    }
+                }
+            }
+        }
         if !ev.out.ok {
             return out;
+        }
+        // state invariant after every transaction: the stored accumulator never exceeds the configured maximum
+        for m in ev.tx.ixs.iter().flat_map(|i| i.accounts.iter()) {
+            if let (Some(pre_o), Some(post_o)) = (ev.pre.get(&m.pubkey).filter(|a| a.owner == crate::ix::wp()).and_then(|a| decode::oracle(&a.data)), ev.post.get(&m.pubkey).filter(|a| a.owner == crate::ix::wp()).and_then(|a| decode::oracle(&a.data))) {
+                if post_o.c != pre_o.c {
+                    cov.probe("constants_changed_on_a_live_pool");
+                    if pre_o.v.volatility_accumulator > post_o.c.max_volatility_accumulator {
+                        cov.probe("maximum_lowered_below_the_stored_accumulator");
+                    }
+                }
+                if post_o.v.volatility_accumulator > post_o.c.max_volatility_accumulator {
+                    out.push(viol("stored_accumulator_above_maximum", ev.idx, format!("after {} the oracle {} stores volatility accumulator {} but the configured maximum is {}", ev.tag, m.pubkey, post_o.v.volatility_accumulator, post_o.c.max_volatility_accumulator)));
+                    return out;
+                }
+            }
         }
         for v in ev.ix_views() {
             let Some(c) = wpix::decode(v.ix) else { continue };
